@@ -24,14 +24,20 @@
    file's tree commute (C13_include_line_inline), and for files given as a list of segments (plain
    text piece / top-level include line) the tree the model of parse(process_includes=True) returns is
    the parse of the recursively inlined text, any depth of nesting between files, diamonds allowed
-   (C13_includes_text_toplevel_partial).  _partial: include lines at top level of each file only -
-   an include line inside a scope is outside the relation (Example); that case and 'include scope'
-   are checked on the implementation by the oracle of the correspondence stream (harness/streams/c13.py
-   builds the inlined text by textual substitution and compares parse(inlined) with the
-   include-processed tree). *)
-From Coq Require Import List Ascii String.
+   (C13_includes_text_toplevel_partial: include lines at top level of each file).  Include lines INSIDE
+   scopes at any nesting depth (Proofs/IncludeTextScopes.v): files as segment TREES (plain piece /
+   include line / scope with a body of segments); C13_scope_parse - the parse of "name {" body "}" is the
+   scope holding the parse of the body -, and C13_includes_text_scopes_partial: the include-processed tree
+   is the parse of the inlined text; a disabled scope is left alone (as the code does).  _partial: a scope
+   that holds an active include is laid out as header line / body / closing-brace line, has no
+   attributes on its header and an undotted name; an include line occupies a whole line; 'include scope'
+   is not covered (checked on the implementation by the oracle of the correspondence stream:
+   harness/streams/c13.py builds the inlined text by textual substitution and compares parse(inlined)
+   with the include-processed tree). *)
+From Coq Require Import List Ascii String ZArith.
 From Phil Require Import Base Tokenizer Tree Parser Include IncludeSpec IncludeProofs IncludeExamples
   ShowErase ParserCompose IncludeText.
+From Phil Require IncludeTextScopes.
 Import ListNotations.
 
 (* whatever the model returns is an expansion in the sense of the specification - for every
@@ -174,3 +180,22 @@ Example C13_scope_include_not_covered :
 }
 "))) = false.
 Proof. exact ex_scope_include_not_covered. Qed.
+
+(* ---------- include lines inside scopes (Proofs/IncludeTextScopes.v; its names are qualified: it
+   re-uses the names seg / FlatF / good_table / fs_of of IncludeText for the segment-tree versions) *)
+Theorem C13_scope_parse : forall o ind dis n body lb,
+  TreeRoundtrip.blank ind -> TreeRoundtrip.name_ok n = true -> body = [] \/ complete body -> parse o body = Ok lb ->
+  exists kids, parse o (IncludeTextScopes.scope_text ind dis n body) = Ok [Scp (mkhdr n dis 0%Z false 1 1) kids []]
+               /\ map erase_obj kids = map erase_obj lb.
+Proof. exact IncludeTextScopes.scope_parse. Qed.
+Print Assumptions C13_scope_parse.
+
+Theorem C13_includes_text_scopes_partial : forall o isc tt cwd, IncludeTextScopes.good_table o tt ->
+  forall file out, IncludeTextScopes.FlatF tt cwd [] file out ->
+  exists t l, includes_file isc (IncludeTextScopes.fs_of o tt) cwd file = Ok t
+              /\ parse o (IncludeTextScopes.text_of out) = Ok l /\ map erase_obj l = map erase_obj t.
+Proof. exact IncludeTextScopes.includes_text_scopes_partial. Qed.
+Print Assumptions C13_includes_text_scopes_partial.
+
+Example C13_includes_text_scopes_example : IncludeTextScopes.good_table [] IncludeTextScopes.ex_tt.
+Proof. exact IncludeTextScopes.ex_good. Qed.
